@@ -12,6 +12,24 @@ def hook_commits():
         return []
 
 CHECKS = {
+ "C14": dict(
+    level="exploration",
+    technique="rapid alias-heavy generator over confusable fixture paths with identical self-identifying symbols; oracle = whole-first-segment alias rule (reference model) on observed object package IDs and reflected getter signatures, plus go/parser checks of the import block",
+    text="Every reference position and spelling is exercised under alias tables built to collide (prefixes of aliases, of path segments, of template imports; equal last path elements; characters illegal in identifiers); the probe reads which package each symbol really came from.",
+    note="Same trusted base as C02. Aliases equal to a template import are excluded here (open known finding of C01). A non-compiling output counts as a C14 violation.",
+    ref="DESIGN.md §4 C14"),
+ "C15": dict(
+    level="exploration",
+    technique="stateful history testing: bounded-exhaustive histories (length <= 3/4) of GetParam/Get/GetTaggedBy/OverrideParam/OverrideService on small configurations, rapid-drawn histories on generated configurations with todo placeholders; model = DI interpreter with parameter/service caches and invocation counters",
+    text="Decides the todo error contract, the override-then-get workflow with the runtime's caching (what keeps its value, what sees the override) and laziness of parameter evaluation (invocation counters are zero after construction and grow only by need) for every enumerated history and thousands of random ones.",
+    note="Same trusted base as C02; override values are literals and marker services.",
+    ref="DESIGN.md §4 C15"),
+ "C17": dict(
+    level="exploration",
+    technique="differential testing normal vs --stub on rapid-generated accepted and defect-injected configurations: verdict parity, go/parser API-surface parity, compilation of both (stub with its tag, and against a types-only variant of the fixture module), reflection parity and panic behaviour in a probe",
+    text="For every generated configuration the two modes must agree on accept/reject and diagnostics; for accepted ones the declared API (package, type, constructor, every method signature) must be identical, the stub must compile while the user packages offer types only, and its constructor and getters must panic.",
+    note="Trusts go/parser/printer for the surface comparison and the Go toolchain for compilation.",
+    ref="DESIGN.md §4 C17"),
  "C13": dict(
     level="exploration",
     technique="complete enumeration of the getter collision/rejection space + rapid-generated accepted configurations whose generated type is reflected (method set with fully-qualified signatures) and whose getters / must-getters are called in a probe, against the documented rule",
